@@ -3,6 +3,8 @@ import QclibModel.Proofs.PleschDispatch
 import QclibModel.Proofs.PleschAssembly
 import QclibModel.Proofs.PleschSvd
 import QclibModel.Props.C08
+import QclibModel.Props.C12
+import QclibModel.Props.C03
 /-
   C01 — exact dense state preparation.  Property theorems only; proofs live in
   Proofs/TopDown*.lean (top-down path) and Proofs/Plesch*.lean (low-rank / SVD assembly).
@@ -312,5 +314,114 @@ example : (Baa.Strategy.split : Baa.Strategy) ≠ .greedy := by decide
                      which C08 proves for the other strategies only.
   All seven classes are checked end to end by the Statevector oracle on every run.
 -/
+
+/-! ## Corollaries added later: UCG / UCGE (from C12) and isometry-based (from C03)
+
+The two corollaries announced as pending above now exist; they literally apply the other
+properties' theorems.  (`C01_baa_zero` for `greedy` is `C08_zero_loss_all`, all four strategies, see
+`Props/C08.lean`.) -/
+
+section ucg
+open Qclib.Ucg Finset
+variable {K : Type} [Field K] [StarRing K] {nrm : K → K → K} {isZero : K → Bool}
+
+/-- **C01 (UCGInitialize / UCGEInitialize, from C12 at target state 0).**  For all `n ≥ 1` and
+every unit vector `v` (zeros allowed), `preserve_previous` on or off: under the same hypothesis as
+`C12_column_t` — each level's UCGate circuit meets qiskit's specification `Diag(d q)·Uc q =
+(multiplexer handed to UCGate)` with unit-modulus diagonals, trivial at the last level — the
+level loop of `_define_initialize` (children / parents / multiplexers of the executable model)
+maps `v` to `|0…0⟩` exactly, and therefore every left inverse of it (`circuit.inverse()`, the
+circuit the class returns) maps `|0…0⟩` to `v`, amplitude by amplitude, no global phase left.
+For `UCGEInitialize` the multiplexer handed to UCGate is the simplified list; by
+`C12_ucge_simplify` it acts on every label as the original multiplexer, so the hypothesis is the
+same.  This is `C12_column_t` at `t = 0`. -/
+theorem C01_ucg (hN : NrmSpec nrm) (hz : ZeroSpec isZero) (preserve : Bool) (n : Nat) (hn : 1 ≤ n)
+    (d : Nat → Nat → K) (hd : ∀ q k, d q k * star (d q k) = 1) (hlast : ∀ k, d (n - 1) k = 1)
+    (v : Nat → K) (hv : ∑ i ∈ range (2 ^ n), v i * star (v i) = 1) (hv0 : ∀ i, 2 ^ n ≤ i → v i = 0)
+    (Uc : Nat → Vec K → Vec K) (hU : UcSpec nrm isZero preserve n 0 d v Uc) :
+    fwd (preGate nrm isZero preserve 0 d v) Uc n v = delta 0
+    ∧ (∀ W : Vec K → Vec K, (∀ ψ, W (fwd (preGate nrm isZero preserve 0 d v) Uc n ψ) = ψ) →
+        W (delta 0) = v) :=
+  have h := C12_column_t hN hz preserve n 0 hn (Nat.pos_of_ne_zero (by simp)) d hd hlast v hv hv0 Uc hU
+  ⟨h.1, h.2.1⟩
+
+/-- the vector `(i, 0)` of the non-vacuity example. -/
+noncomputable def c01ExV : Nat → ℂ := fun i => if i = 0 then Complex.I else 0
+
+/-- Non-vacuity of `C01_ucg`: over `ℂ` with the true pair norm, `n = 1`, `v = (i, 0)`, trivial
+diagonals and the exact multiplexer as circuit meet every hypothesis. -/
+example : ∃ (Uc : Nat → Vec ℂ → Vec ℂ),
+    (∑ i ∈ range (2 ^ 1), c01ExV i * star (c01ExV i) = 1) ∧ c01ExV 0 ≠ 0 ∧
+    UcSpec cnrm cIsZero false 1 0 (fun _ _ => 1) c01ExV Uc ∧
+    fwd (preGate cnrm cIsZero false 0 (fun _ _ => 1) c01ExV) Uc 1 c01ExV = delta 0 := by
+  have hsum : ∑ i ∈ range (2 ^ 1), c01ExV i * star (c01ExV i) = 1 := by
+    simp [c01ExV]
+  have hU : UcSpec cnrm cIsZero false 1 0 (fun _ _ => 1) c01ExV
+      (fun q ψ => muxApply (usedMux cnrm cIsZero false 0 (fun _ _ => 1) c01ExV q) q ψ) := by
+    intro q _ ψ i; rw [one_mul]
+  refine ⟨_, hsum, by simp [c01ExV], hU, ?_⟩
+  refine (C01_ucg nrmSpec_complex zeroSpec_complex false 1 (by omega)
+      (fun _ _ => 1) (by simp) (by simp) c01ExV hsum ?_ _ hU).1
+  intro i hi; simp [c01ExV]; omega
+
+end ucg
+
+section isometry
+open Qclib.Iso Matrix
+
+/-- **C01 (IsometryInitialize, from C03 with `m = 0`: a `2^n × 1` isometry).**  The three schemes
+of `qclib.isometry.decompose` on a single column, each statement an instance of a C03 theorem:
+* **ccd** (`C03_ccd_sweep` with one column): for every `n` and every unit vector `v ∈ ℂ^(2^n)` the
+  sweep — here the single `G_0`, built from the exact Lemma-2 matrices — maps `v` to `φ·e_0` with
+  `|φ|² = 1`; the closing `DiagonalGate` removes `φ` and the inverted circuit maps `|0…0⟩` to `v`;
+* **csd / knill, extension** (`C03_extend` with a one-column `V`): given the null-space
+  specification, `_extend_to_unitary` returns a matrix that is unitary on both sides and whose
+  column `|0…0⟩` is `v` — the matrix handed to the unitary synthesis (C02) by `csd`;
+* **knill** (`C03_knill`): for an orthonormal complete eigenbasis of that unitary `U = Σ λ_i
+  |w_i⟩⟨w_i|`, any block order and any rule dropping only eigenvalues `1`, the product of the
+  emitted factors has column `|0…0⟩` equal to `v`. -/
+theorem C01_isometry :
+    (∀ (n : Nat) (v : Nat → ℂ), ip (starRingEnd ℂ) n v v = 1 →
+      (∀ r, r < 2 ^ n → r ≠ 0 → sweep complexChooser n 1 (fun _ => v) 0 r = 0) ∧
+      (starRingEnd ℂ) (sweep complexChooser n 1 (fun _ => v) 0 0)
+        * sweep complexChooser n 1 (fun _ => v) 0 0 = 1)
+    ∧ (∀ {ι ν R : Type} [CommRing R] [StarRing R] [Fintype ι] [DecidableEq ι] [Fintype ν]
+        [DecidableEq ν] (V : Matrix ι (Fin 1) R) (Nsp : Matrix ι ν R),
+        Vᴴ * V = 1 → Vᵀ * Nsp = 0 → Nspᴴ * Nsp = 1 →
+        Fintype.card ι = Fintype.card (Fin 1) + Fintype.card ν →
+        (Extend.extend V Nsp)ᴴ * Extend.extend V Nsp = 1 ∧
+        Extend.extend V Nsp * (Extend.extend V Nsp)ᴴ = 1 ∧
+        ∀ x, Extend.extend V Nsp x (Sum.inl 0) = V x 0)
+    ∧ (∀ {ι κ R : Type} [CommRing R] [StarRing R] [Fintype ι] [DecidableEq ι] [DecidableEq κ]
+        [Fintype κ] (w : κ → ι → R) (lam : κ → R),
+        (∀ i j, star (w i) ⬝ᵥ w j = if i = j then 1 else 0) → ∑ i, Knill.proj (w i) = 1 →
+        ∀ (keep : κ → Bool), (∀ i, keep i = false → lam i = 1) →
+        ∀ l : List κ, l.Nodup → (∀ i, i ∈ l) →
+        ∀ (U : Matrix ι ι R), U = ∑ i, lam i • Knill.proj (w i) →
+        ∀ (i0 : ι) (v : ι → R), (∀ x, U x i0 = v x) →
+        ∀ x, ((l.filter keep).map (fun i => 1 + (lam i - 1) • Knill.proj (w i))).prod x i0 = v x) := by
+  refine ⟨fun n v hv => ?_, ?_, ?_⟩
+  · exact C03_ccd_sweep n 1 (Nat.pos_of_ne_zero (by simp)) (fun _ => v)
+      (fun c c' h1 h2 => absurd h2 (by omega)) (fun _ _ => hv) 0 (by omega)
+  · intro ι ν R _ _ _ _ _ _ V Nsp hV hnull hiso hcard
+    have h := C03_extend V Nsp hV hnull hiso hcard
+    exact ⟨h.2.1, h.2.2, fun x => rfl⟩
+  · intro ι κ R _ _ _ _ _ _ w lam horth hcomp keep hkeep l hnd hall U hU i0 v hcol x
+    rw [(C03_knill w lam horth).2 hcomp keep hkeep l hnd hall, ← hU]
+    exact hcol x
+
+/-- Non-vacuity of `C01_isometry`: the unit vector `(3/5, 4i/5)` meets the ccd hypothesis, and the
+one-column isometry `exV` with null space `exN` meets the extension hypotheses. -/
+example : ip (starRingEnd ℂ) 1 (fun r => if r = 0 then (3 / 5 : ℂ) else 4 / 5 * Complex.I)
+      (fun r => if r = 0 then (3 / 5 : ℂ) else 4 / 5 * Complex.I) = 1
+    ∧ Extend.exVᴴ * Extend.exV = 1 ∧ Extend.exVᵀ * Extend.exN = 0 ∧ Extend.exNᴴ * Extend.exN = 1 := by
+  refine ⟨?_, Extend.ex_spec.1, Extend.ex_spec.2.1, Extend.ex_spec.2.2.1⟩
+  simp only [ip, Nat.pow_one, Finset.sum_range_succ, Finset.sum_range_zero, zero_add]
+  simp only [if_true, one_ne_zero, if_false, map_mul, map_div₀, Complex.conj_I, map_ofNat]
+  ring_nf
+  rw [Complex.I_sq]
+  norm_num
+
+end isometry
 
 end Qclib
